@@ -139,16 +139,38 @@ def _find_rise_offsets(connection, reference_zeta_mm):
     ensures(db_sealed())
 
 
-RECESSION_LOOPS = 4
+REC_GHOSTS = {"g_epoch": "array[real]", "g_zeta": "array[real]", "g_rows": "list[tuple[int,int]]",
+              "g_series": "list[tuple[array[real],array[real]]]", "g_indices": "list[int]", "g_offsets": "array[real]",
+              "g_mapping": "dict[int,list[tuple[int,real]]]", "g_ref": "int", "g_mean0": "real", "g_step": "real",
+              "g_lv": "list[int]", "g_q": "list[int]"}
+
+
+@spec
+def rec_series_ok(series, rows, epoch, zeta, i):
+    """The i-th series holds samples of the i-th interstorm interval only: it starts at the interval's
+    start epoch, ends at its thru epoch, stays inside it, and pairs every epoch with a level."""
+    return (len(series[i][0]) >= 1 and len(series[i][1]) == len(series[i][0])
+            and series[i][0][0] == rows[i][0] and series[i][0][len(series[i][0]) - 1] == rows[i][1]
+            and forall(0, len(series[i][0]), lambda k: rows[i][0] <= series[i][0][k] and series[i][0][k] <= rows[i][1]))
+
+
+@spec
+def rcz_row(row, series, mapping, h, q):
+    """row = (start epoch of the interval named by the q-th entry of level h, h, that entry's crossing)."""
+    return (h in mapping and 0 <= q and q < len(mapping[h])
+            and row == (series[mapping[h][q][0]][0][0], h, mapping[h][q][1]))
 
 
 @contract("spowtd.recession:compute_offsets#reference", db=True,
-          args={"cursor": "cursor", "reference_zeta_mm": "real"}, returns="none", nonlinear="nra")
+          args={"cursor": "cursor", "reference_zeta_mm": "real"}, returns="none", ghost_results=REC_GHOSTS, nonlinear="nra")
 @contract("spowtd.recession:compute_offsets", db=True,
-          args={"cursor": "cursor", "reference_zeta_mm": "none"}, returns="none")
+          args={"cursor": "cursor", "reference_zeta_mm": "none"}, returns="none", ghost_results=REC_GHOSTS)
 def _compute_offsets(cursor, reference_zeta_mm):
-    """C20 typestate for the recession step (its C09 / C13 content is covered by the bounded stand-ins
-    in this revision): writes only before the commit; nothing committed here."""
+    """C13 (recession curve): the series handed to the fit are the samples of the interstorm intervals, in
+    order; every recession_interval row is the start epoch of an interstorm interval chosen by the fit
+    with the fitted offset minus the mean crossing of the origin level; every recession_interval_zeta row
+    is (that start epoch, level, crossing) for an entry of the fit's mapping.  C09 as for the rise curve.
+    C20: writes only before the commit; nothing committed here."""
     requires(not db_sealed())
     modifies("__db__")
     may_raise(ValueError)
@@ -157,12 +179,63 @@ def _compute_offsets(cursor, reference_zeta_mm):
     may_raise(KeyError)
     may_raise(TypeError)
     may_raise(LinAlgError)
-    ensures(not db_sealed())
+    ghost(after="epoch, zeta_mm = ", let="g_epoch", do=lambda: epoch)
+    ghost(after="epoch, zeta_mm = ", let="g_zeta", do=lambda: zeta_mm)
+    ghost(after="series = []", let="g_rows", do=lambda: cursor.fetchall())
+    ghost(after="indices, offsets, head_mapping = get_series_time_offsets(", let="g_series", do=lambda: series)
+    ghost(after="indices, offsets, head_mapping = get_series_time_offsets(", let="g_indices", do=lambda: indices)
+    ghost(after="indices, offsets, head_mapping = get_series_time_offsets(", let="g_offsets", do=lambda: offsets)
+    ghost(after="indices, offsets, head_mapping = get_series_time_offsets(", let="g_mapping", do=lambda: head_mapping)
+    ghost(after="indices, offsets, head_mapping = get_series_time_offsets(", let="g_step", do=lambda: delta_z_mm)
+    ghost(after="mean_zero_crossing_time_s = ", let="g_ref", do=lambda: reference_index)
+    ghost(after="mean_zero_crossing_time_s = ", let="g_mean0", do=lambda: mean_zero_crossing_time_s)
+    ghost(after="mean_zero_crossing_time_s = ", let="g_lv", do=lambda: [])
+    ghost(after="mean_zero_crossing_time_s = ", let="g_q", do=lambda: [])
+    ghost(before="cursor.execute('\\n            INSERT INTO recession_interval_zeta", let="g_lv", do=lambda: g_lv + [discrete_zeta])
+    ghost(before="cursor.execute('\\n            INSERT INTO recession_interval_zeta", let="g_q", do=lambda: g_q + [loop_it(3)])
     ghost(before="raise ValueError('Reference zeta", do=lambda: cut(not is_integer(reference_zeta_mm / delta_z_mm)))
-    loop(0, types={"series": "list[tuple[array[real],array[real]]]"}, inv=lambda it: not db_sealed())
-    loop(1, inv=lambda it: not db_sealed())
-    loop(2, inv=lambda it: not db_sealed())
-    loop(3, inv=lambda it: not db_sealed())
+    ensures(not db_sealed())
+    ensures(len(g_series) == len(g_rows))
+    ensures(forall(0, len(g_rows), lambda i: uf_int("is_interstorm_start", g_rows[i][0]) == 1))
+    ensures(forall(0, len(g_series), lambda i: rec_series_ok(g_series, g_rows, g_epoch, g_zeta, i)))
+    ensures(g_ref in g_mapping)
+    ensures(implies(reference_zeta_mm is None, forall_int(lambda h: implies(h in g_mapping, h <= g_ref))))
+    ensures(implies(reference_zeta_mm is not None, on_grid(reference_zeta_mm, g_step, g_ref)))
+    ensures(len(db_rows("recession_interval")) == len(db_rows_before("recession_interval")) + len(g_indices))
+    ensures(forall(len(db_rows_before("recession_interval")), len(db_rows("recession_interval")), lambda K:
+            db_rows("recession_interval")[K]
+            == (g_series[g_indices[K - len(db_rows_before("recession_interval"))]][0][0],
+                g_offsets[K - len(db_rows_before("recession_interval"))] - g_mean0)))
+    ensures(len(db_rows("recession_interval_zeta")) == len(db_rows_before("recession_interval_zeta")) + len(g_lv)
+            and len(g_q) == len(g_lv))
+    ensures(forall(len(db_rows_before("recession_interval_zeta")), len(db_rows("recession_interval_zeta")), lambda K:
+            rcz_row(db_rows("recession_interval_zeta")[K], g_series, g_mapping,
+                    g_lv[K - len(db_rows_before("recession_interval_zeta"))], g_q[K - len(db_rows_before("recession_interval_zeta"))])))
+    loop(0, types={"series": "list[tuple[array[real],array[real]]]"},
+         inv=lambda it: not db_sealed() and len(series) == it
+         and db_rows("recession_interval") == db_rows_before("recession_interval")
+         and db_rows("recession_interval_zeta") == db_rows_before("recession_interval_zeta")
+         and forall(0, it, lambda i: rec_series_ok(series, g_rows, epoch, zeta_mm, i)))
+    loop(1, inv=lambda it: not db_sealed()
+         and db_rows("recession_interval_zeta") == db_rows_before("recession_interval_zeta")
+         and len(db_rows("recession_interval")) == len(db_rows_before("recession_interval")) + it
+         and forall(len(db_rows_before("recession_interval")), len(db_rows("recession_interval")), lambda K:
+            db_rows("recession_interval")[K]
+            == (series[indices[K - len(db_rows_before("recession_interval"))]][0][0],
+                offsets[K - len(db_rows_before("recession_interval"))] - mean_zero_crossing_time_s)))
+    loop(2, types={"g_lv": "list[int]", "g_q": "list[int]"}, inv=lambda it: not db_sealed()
+         and db_rows("recession_interval") == g_ri_done
+         and len(db_rows("recession_interval_zeta")) == len(db_rows_before("recession_interval_zeta")) + len(g_lv) and len(g_q) == len(g_lv)
+         and forall(len(db_rows_before("recession_interval_zeta")), len(db_rows("recession_interval_zeta")), lambda K:
+            rcz_row(db_rows("recession_interval_zeta")[K], series, head_mapping,
+                    g_lv[K - len(db_rows_before("recession_interval_zeta"))], g_q[K - len(db_rows_before("recession_interval_zeta"))])))
+    loop(3, inv=lambda it: not db_sealed()
+         and db_rows("recession_interval") == g_ri_done
+         and len(db_rows("recession_interval_zeta")) == len(db_rows_before("recession_interval_zeta")) + len(g_lv) and len(g_q) == len(g_lv)
+         and forall(len(db_rows_before("recession_interval_zeta")), len(db_rows("recession_interval_zeta")), lambda K:
+            rcz_row(db_rows("recession_interval_zeta")[K], series, head_mapping,
+                    g_lv[K - len(db_rows_before("recession_interval_zeta"))], g_q[K - len(db_rows_before("recession_interval_zeta"))])))
+    ghost(before="for discrete_zeta, crossings in head_mapping.items()", let="g_ri_done", do=lambda: db_rows("recession_interval"))
 
 
 @contract("spowtd.recession:find_recession_offsets#reference", db=True,
